@@ -66,7 +66,10 @@ func init() {
 	})
 }
 
-var nearMissSchemes = []string{"debian", "semver", "go", "gomod", "rubygems", "python", "pip", "Npm", "NPM", "npm ", " npm", "npm2", "np", "deb1", "gems", "mavn", "apk", "alpm", "apache", "github", "conan", "composer", "hex", "cran", "gentoo", "mattermost", "nginx", "", "généric", "rpm-", "nu-get", "vers"}
+// near-miss scheme names: misspellings and ill-formed names only. Names of ecosystems that merely lack VERS support today
+// (conan, composer, hex, ...) or plausible aliases (debian, semver) are deliberately absent: adding support for one of
+// them would be a legitimate change, not a violation.
+var nearMissSchemes = []string{"np", "npmm", "mavn", "pypy", "golan", "debb", "rpmm", "gemm", "nugte", "carg", "alpin", "generik", "Npm", "NPM", "npm ", " npm", "npm2", "deb1", "gems", "", "généric", "rpm-", "nu-get", "vers", "xyzzy", "unknownscheme"}
 
 // corrupt applies a single-point corruption to a VERS string.
 func corruptVers(rt *rapid.T, s string) (string, string) {
